@@ -378,10 +378,14 @@ class ImplWorld:
         j = len(self.slots)
         world = self
 
+        created = []
+
         def klass(statechart, clock=None):
-            return Interpreter(statechart, clock=clock, evaluator_klass=make_evaluator(world, j))
+            # the interpreter the listener will drive (captured here: no private attribute is read)
+            created.append(Interpreter(statechart, clock=clock, evaluator_klass=make_evaluator(world, j)))
+            return created[-1]
         l = self.slots[i].bind_property_statechart(self.charts[ci], interpreter_klass=klass)
-        prop = l._interpreter
+        prop = created[-1]
         self._new_slot(prop)
         lid = self._add_listener(i, ('property', j), l)
         return {'id': lid, 'slot': j, 'ok': True}
